@@ -121,4 +121,16 @@ theorem perm_of_sameSet (a b : List Nat) (h : sameSet a b = true) : List.Perm a 
 theorem mem_iff_of_sameSet (a b : List Nat) (h : sameSet a b = true) (x : Nat) : x ∈ a ↔ x ∈ b :=
   (perm_of_sameSet a b h).mem_iff
 
+def pairLe (p q : Nat × Nat) : Bool := Nat.blt p.2 q.2 || (p.2 == q.2 && Nat.ble p.1 q.1)
+
+/-- same pairs up to order (sorted by second, then first component) -/
+def samePairs (a b : List (Nat × Nat)) : Bool :=
+  a == b || msort pairLe a.length a == msort pairLe b.length b
+
+theorem perm_of_samePairs (a b : List (Nat × Nat)) (h : samePairs a b = true) : List.Perm a b := by
+  simp only [samePairs, Bool.or_eq_true, beq_iff_eq] at h
+  rcases h with rfl | e
+  · exact List.Perm.refl _
+  · exact (msort_perm pairLe a.length a).symm.trans (e ▸ msort_perm pairLe b.length b)
+
 end Rspirv
